@@ -16,6 +16,7 @@ from session import Session
 import ir
 
 _SESSION = None
+TIME_BUDGET = [240]
 
 
 def run_scenario(args):
@@ -37,6 +38,7 @@ def run_scenario(args):
     try:
         r = Run(prog, entry, K=sc.get("K", 60), overrides=overrides, map_perm=sc.get("map_perm", False),
                 max_instr=sc.get("max_instr", 400000), reduce=sc.get("reduce", True), verbose=verbose,
+                spawn_limits=sc.get("spawn_limits"), time_budget_s=sc.get("time_budget_s", TIME_BUDGET[0]),
                 inits=sc.get("inits", [pkgpath] + ([] if pkgpath.endswith("/schema") else ["github.com/olive-io/bpmn/schema"])))
         r.execute()
         m = r.m
@@ -108,6 +110,7 @@ def run_scenario(args):
         res["stats"]["candidates"] = sum(len(s) for s in r.sched)
         res["stats"]["constraints"] = len(m.constraints)
         res["stats"]["log_entries"] = len(m.log)
+        res["cuts"] = sorted(m.cuts)
     res["functions"] = list(prog.requested)
     res["wall_s"] = round(time.time() - t0, 2)
     return res
@@ -170,6 +173,7 @@ def main():
     prop = a.prop.upper()
     seed = int(os.environ.get("VERIF_SEED", "0") or 0)
     t0 = time.time()
+    TIME_BUDGET[0] = 240 if a.tier == "quick" else 1800
     mod = importlib.import_module(prop.lower())
     scenarios = [s for s in mod.SCENARIOS if a.tier in s.get("tiers", ("quick", "thorough"))]
     if a.only:
@@ -259,6 +263,7 @@ def main():
             functions_encoded=real_funcs,
             scenarios=[dict(name=r["name"], entry=r["entry"], status=r["status"], K=r["K"], bounds=r["bounds"],
                             steps=r["stats"].get("steps"), threads=r["stats"].get("threads"), complete=r.get("complete"),
+                            cuts=r.get("cuts", []),
                             reach=r["reach"], queries=r["stats"].get("solver_checks"), solver_s=round(r["stats"].get("solver_s", 0), 2),
                             instrs=r["stats"].get("instrs"), wall_s=r["wall_s"],
                             obligations=[dict(kind=o["kind"], msg=o["msg"], pos=o["pos"], verdict=o["verdict"], n=o["n"]) for o in r["obligations"]])
